@@ -224,7 +224,7 @@ func (w *histWorld) genCosmosFee(base *big.Int, g uint64, admissible bool) (*big
 		}
 		return fee, big.NewInt(int64(1 + r.Intn(1000))), "positive-over-zero-bound,tip=positive"
 	}
-	k := r.Intn(9)
+	k := r.Intn(12)
 	if admissible {
 		k = 1 + r.Intn(2)
 		if r.Bool() {
@@ -246,6 +246,12 @@ func (w *histWorld) genCosmosFee(base *big.Int, g uint64, admissible bool) (*big
 		fee, shape = new(big.Int).Rsh(bg, 1), "fee=bound*gas/2"
 	case 5:
 		fee, shape = mulU(base, g), "fee=base*gas"
+	case 9: // a positive fee below the gas limit: the price per gas floors to 0
+		fee, shape = bu(g-1), "fee=gas-1"
+	case 10:
+		fee, shape = big.NewInt(1), "fee=1"
+	case 11:
+		fee, shape = bu(g/2), "fee=gas/2"
 	default:
 		fee, shape = new(big.Int).Add(new(big.Int).Lsh(bg, 1), big.NewInt(int64(r.Intn(100000)))), "fee=2*bound*gas+rand"
 	}
